@@ -1,9 +1,121 @@
-//! C24: not built yet.
-use crate::out::Out;
-use serde_json::Value;
+//! C24: `analysis::callgraph::{get_program_callgraph, find_call_sequences_to_target}`.
+//! One event per program: the program and, for every ordered pair (s, t) of its functions, the
+//! returned set of call TIDs.  spec/trace/T_C24.tla compares with spec/Callgraph.tla.
+use crate::irenc;
+use crate::irgen::{self, Knobs, RawKnobs};
+use crate::out::{catch, Out};
+use crate::rng::Rng;
+use cwe_checker_lib::analysis::callgraph::{find_call_sequences_to_target, get_program_callgraph};
+use cwe_checker_lib::intermediate_representation::*;
+use serde_json::{json, Value};
+use std::collections::BTreeMap;
 
-pub fn gen(_out: &mut Out, _sub: &str) {}
+pub fn exec(prog: &Term<Program>, origin: &str) -> (Value, bool) {
+    let subs: Vec<Tid> = prog.term.subs.keys().cloned().collect();
+    let mut queries = Vec::new();
+    let mut sizes = std::collections::BTreeSet::new();
+    for s in &subs {
+        for t in &subs {
+            let (p2, s2, t2) = (prog.clone(), s.clone(), t.clone());
+            let res = catch(move || {
+                let cg = get_program_callgraph(&p2);
+                find_call_sequences_to_target(&cg, &s2, &t2).iter().map(|x| x.to_string()).collect::<Vec<String>>()
+            });
+            match res {
+                Ok(calls) => {
+                    sizes.insert(calls.len());
+                    queries.push(json!({"s": s.to_string(), "t": t.to_string(), "calls": calls, "panic": ""}))
+                }
+                Err(msg) => queries.push(json!({"s": s.to_string(), "t": t.to_string(), "calls": [], "panic": msg})),
+            }
+        }
+    }
+    // feature tag (counted only): the queries of this program have at least three different result sizes
+    // (so some result is neither empty nor "all calls")
+    let nt = sizes.len() >= 3;
+    (json!({"ev": "cg", "origin": origin, "program": irenc::program(&prog.term), "queries": queries,
+            "serde": irgen::program_to_string(prog)}), nt)
+}
 
-pub fn replay(_run: &[Value], _sub: &str) -> Vec<Value> {
-    Vec::new()
+pub fn replay(run: &[Value], _sub: &str) -> Vec<Value> {
+    run.iter()
+        .map(|e| exec(&irgen::program_from_string(e["serde"].as_str().unwrap()), e["origin"].as_str().unwrap_or("replay")).0)
+        .collect()
+}
+
+/// the program whose function u has one block per edge (u, v) of `edges`, calling v
+fn graph_program(n: usize, edges: &[(usize, usize)]) -> Term<Program> {
+    let mut subs = BTreeMap::new();
+    for u in 0..n {
+        let mut blocks = vec![];
+        for (b, (_, v)) in edges.iter().filter(|(a, _)| *a == u).enumerate() {
+            let a = format!("{:08x}", 0x1000 * (u as u64 + 1) + 0x10 * b as u64);
+            blocks.push(Term {
+                tid: irgen::blk_tid(u, b),
+                term: Blk {
+                    defs: vec![],
+                    jmps: vec![Term { tid: irgen::tid(&format!("instr_{}_0", a), &a), term: Jmp::Call { target: irgen::sub_tid(*v), return_: None } }],
+                    indirect_jmp_targets: vec![],
+                },
+            });
+        }
+        let st = irgen::sub_tid(u);
+        subs.insert(st.clone(), Term { tid: st, term: Sub { name: format!("f{}", u), blocks, calling_convention: None } });
+    }
+    Term {
+        tid: irgen::tid("prog_00001000", "00001000"),
+        term: Program { subs, extern_symbols: BTreeMap::new(), entry_points: Default::default(), address_base_offset: 0 },
+    }
+}
+
+pub fn gen(out: &mut Out, _sub: &str) {
+    let mut rng = Rng::new(out.seed ^ 0xC24);
+    let mut nq = 0usize;
+    let n = out.size(400, 6000);
+    for i in 0..n {
+        let mut r = rng.fork();
+        let mut k = Knobs::default();
+        k.min_subs = 2;
+        k.max_subs = if i % 3 == 0 { 4 } else { 8 };
+        k.max_blocks = if i % 3 == 1 { 2 } else { 4 };
+        k.max_defs = 0;
+        // call-heavy; sparse and dense graphs
+        k.w_call_internal = if i % 2 == 0 { 30 } else { 12 };
+        k.w_call_extern = 6;
+        k.w_callind = 6;
+        k.w_branch = 6;
+        k.w_cbranch_branch = 6;
+        k.pct_empty_sub = 10;
+        let mut prog = irgen::gen_program(&mut r, &k);
+        if i % 4 == 3 {
+            // some calls to targets that are no function of the program
+            let rk = RawKnobs { dangling_jumps: 0, dangling_calls: 3, dangling_rets: 0, dangling_hints: 0, shared_listed: 0, shared_reached: 0,
+                                dup_blocks: 0, dup_defs: 0, dup_jmps: 0 };
+            irgen::make_raw(&mut r, &mut prog, &rk);
+        }
+        let (ev, nt) = exec(&prog, "random");
+        nq += ev["queries"].as_array().unwrap().len();
+        out.emit(vec![ev], nt);
+    }
+    // random graphs given by edge lists with parallel edges (denser than the IR generator gives)
+    let m = out.size(150, 3000);
+    for _ in 0..m {
+        let nf = 2 + rng.below(7) as usize;
+        let ne = rng.below(2 * nf as u64 + 1) as usize;
+        let edges: Vec<(usize, usize)> = (0..ne).map(|_| (rng.below(nf as u64) as usize, rng.below(nf as u64) as usize)).collect();
+        let (ev, nt) = exec(&graph_program(nf, &edges), "edges");
+        nq += ev["queries"].as_array().unwrap().len();
+        out.emit(vec![ev], nt);
+    }
+    if !out.quick() {
+        // exhaustive: all 2^9 call graphs on 3 functions, all 9 ordered pairs each
+        for mask in 0..512u32 {
+            let edges: Vec<(usize, usize)> = (0..9).filter(|b| mask & (1 << b) != 0).map(|b| (b / 3, b % 3)).collect();
+            let (ev, nt) = exec(&graph_program(3, &edges), "exhaustive3");
+            nq += ev["queries"].as_array().unwrap().len();
+            out.emit(vec![ev], nt);
+        }
+        out.extra.insert("exhaustive_3_function_graphs".into(), json!(512));
+    }
+    out.extra.insert("queries".into(), json!(nq));
 }
